@@ -400,11 +400,9 @@ impl World for SegWorld {
         ctx.panic_at = step.panic_at;
         let cfg = self.cfg.clone();
         if step.panic_at == Some(crate::op::CONTROL) && cfg.has(O_TORN) {
-            if let Op::SQuery { .. } = step.op {
-                // control run of C18: the checks that follow an injected panic, without the panic
-                self.check_masks(ctx, "SQuery")?;
-                self.full_observation(ctx, "SQuery")?;
-            }
+            // control run of C18: the checks that follow an injected panic, without the panic
+            self.check_masks(ctx, "SQuery")?;
+            self.full_observation(ctx, "SQuery")?;
         }
         match step.op {
             Op::Tick { dt } => {
